@@ -984,6 +984,11 @@ Theorem match_agree_spec : forall fl st ms ml, match_agree fl st ms ml <->
 Proof. intros. reflexivity. Qed.
 Theorem idx_agree_regroup_perm : forall fl sms lms, idx_agree fl sms lms -> Permutation (lmatches_of (regroup (length (f_stanzas fl)) lms)) lms.
 Proof. exact idx_agree_perm. Qed.
+(* in the normalized file every capture expression (statements at any depth, shorthand bodies) and the full-match capture of every stanza has
+   file index = stanza index: the index equation of `fexpr` is `x = x` there *)
+Theorem normalize_file_indices_coincide : forall fl st, In st (f_stanzas (normalize_file fl)) ->
+  Forall (fun c : N * N => fst c = snd c) (stanza_caps (normalize_file fl) st).
+Proof. exact normalize_file_caps_coincide. Qed.
 (* the harness driver on a recorded case = the driver on its normalization (both index spaces = file indices), in both modes *)
 Theorem run_one_normalize : forall t cfg budget r b g0, idx_agree (ri_file r) (ri_smatches r) (ri_lmatches r) ->
   run_one t cfg budget (with_lazy r b) g0 = run_one t cfg budget (with_lazy (normalize_run r) b) g0.
